@@ -4,6 +4,7 @@ import (
 	"fmt"
 	"go/ast"
 	"go/types"
+	"os"
 	"sort"
 	"strings"
 
@@ -2663,6 +2664,16 @@ func (mp *mapProto) lookupJustified() {
 					if strings.Contains(e.Name, "(*entry).") && len(e.Args) > 0 {
 						uses = append(uses, e.Args[0])
 					}
+					// with the entry's methods walked through, the use shows as an operation on a field of the entry
+					for _, a := range e.Args {
+						if a != nil && a.Op == "faddr" && len(a.Args) == 1 {
+							uses = append(uses, a.Args[0])
+						}
+					}
+				case "store":
+					if e.Addr != nil && e.Addr.Op == "faddr" && len(e.Addr.Args) == 1 {
+						uses = append(uses, e.Addr.Args[0])
+					}
 				case "mapupdate":
 					uses = append(uses, e.Val)
 				}
@@ -2686,6 +2697,9 @@ func (mp *mapProto) lookupJustified() {
 						continue
 					}
 					f, known := found[u.Args[0].Key()]
+					if os.Getenv("TYPCHECK_TRACE") != "" {
+						fmt.Printf("TRACE lj %s: %s known=%v pol=%v nc=%d ncond=%d\n", fi.Name, e.Name, known, f.pol, f.nc, e.NCond)
+					}
 					if !known || !f.pol || f.nc > e.NCond {
 						ok, why = false, fmt.Sprintf("a path (%s) uses the entry of a lookup that it has not found present: %s", p.CondString(), e.String())
 					}
